@@ -2570,3 +2570,110 @@ Proof.
 Qed.
 
 End NoGrowth.
+
+(* ================================================================== *)
+(** * Part 7: correctness does not depend on the order of the ids inside a bucket *)
+Require Import Permutation.
+
+Lemma Forall2_nth_error_r : forall A B (R : A -> B -> Prop) l l' k y,
+  Forall2 R l l' -> nth_error l' k = Some y -> exists x, nth_error l k = Some x /\ R x y.
+Proof.
+  intros A B R l l' k y H. revert k. induction H as [|a b l l' Hab H IH]; intros k Hk.
+  - destruct k; discriminate.
+  - destruct k; simpl in *; [inversion Hk; subst; eauto | apply IH; assumption].
+Qed.
+
+Section BucketOrder.
+Variable hashf : list byte -> Z -> Z.
+Hypothesis hash_range : forall nm hs, hs_ok hs -> 0 <= hashf nm hs < hs.
+
+(* the table invariant speaks about each bucket as a set: any reordering of any bucket keeps it *)
+Theorem tab_inv_bucket_order_irrelevant : forall names hs bs bs',
+  Forall2 (@Permutation nat) bs bs' ->
+  tab_inv hashf names (mkntab hs (Some bs)) -> tab_inv hashf names (mkntab hs (Some bs')).
+Proof.
+  intros names hs bs bs' Hp [Hhs [Hlen Hb]]. split; [assumption|]. simpl in *. split.
+  - rewrite <- (Forall2_length Hp). assumption.
+  - intros k ids' Hk. destruct (Forall2_nth_error_r _ _ _ _ _ _ _ Hp Hk) as (ids & Hids & Hperm).
+    destruct (Hb _ _ Hids) as [Hnd Hiff]. split.
+    + eapply Permutation_NoDup; eauto.
+    + intro i. rewrite <- Hiff. split; intro Hin.
+      * eapply Permutation_in; [apply Permutation_sym|]; eauto.
+      * eapply Permutation_in; eauto.
+Qed.
+
+(* hence lookup through ANY reordering of the buckets is still the linear search *)
+Corollary lookup_any_bucket_order : forall names hs bs bs' nm,
+  Forall2 (@Permutation nat) bs bs' -> tab_inv hashf names (mkntab hs (Some bs)) -> NoDup names ->
+  hfind hashf names (mkntab hs (Some bs')) nm = Some (find_name nm names).
+Proof.
+  intros. apply hfind_linear; [assumption| |assumption].
+  eapply tab_inv_bucket_order_irrelevant; eauto.
+Qed.
+
+(* rename (hash_replace appends the renamed, possibly small, id at the END of a bucket) followed by a delete
+   (which renumbers EVERY stored id above the deleted one): invariant and lookup agreement hold whatever the
+   order inside the buckets was and has become *)
+Theorem replace_then_delete_any_order : forall names t i old new j nm,
+  tab_inv hashf names t -> nth_error names i = Some old ->
+  nth_error (set_nth i names new) j = Some nm ->
+  exists t1 t2,
+    hash_replace hashf t i old new = Some t1 /\
+    hash_delete hashf t1 nm j = Some (Some t2) /\
+    tab_inv hashf (del_nth j (set_nth i names new)) t2 /\
+    (NoDup (del_nth j (set_nth i names new)) ->
+     forall q, hfind hashf (del_nth j (set_nth i names new)) t2 q =
+               Some (find_name q (del_nth j (set_nth i names new)))).
+Proof.
+  intros names t i old new j nm Ht Hi Hj.
+  destruct (hash_replace_inv hashf hash_range names t i old new Ht Hi) as (t1 & Hr & Ht1 & _).
+  destruct (hash_delete_inv hashf hash_range _ t1 j nm Ht1 Hj) as (t2 & Hd & Ht2 & _).
+  exists t1, t2. split; [assumption|]. split; [assumption|]. split; [assumption|].
+  intros Hnd q. apply hfind_linear; assumption.
+Qed.
+
+End BucketOrder.
+
+(* the seeded variant of ncmpio_hash_delete that renumbers each bucket from its tail and stops at the first id
+   below the deleted one (assuming increasing ids inside a bucket) *)
+Fixpoint dec_from_tail (id : nat) (revl : list nat) : list nat :=
+  match revl with
+  | [] => []
+  | j :: r => if Nat.ltb j id then revl else pred j :: dec_from_tail id r
+  end.
+Definition renumber_tail_walk (id : nat) (bs : list (list nat)) : list (list nat) :=
+  map (fun l => rev (dec_from_tail id (rev l))) bs.
+
+Definition hash_delete_tail_walk (hashf : list byte -> Z -> Z) (t : ntab) (nm : list byte) (id : nat)
+  : option (option ntab) :=
+  match nt_tab t with
+  | None => None
+  | Some bs =>
+    match bucket hashf bs nm (nt_hsize t) with
+    | None => None
+    | Some (k, ids) =>
+      match remove_id id ids with
+      | None => Some None
+      | Some ids' => Some (Some (mkntab (nt_hsize t) (Some (renumber_tail_walk id (set_nth k bs ids')))))
+      end
+    end
+  end.
+
+(* five attributes in one bucket; rename id 1 (its id goes to the end of the bucket); delete id 3: the tail
+   walk stops at once, id 4 is not renumbered, and looking up the last attribute by name reads value[4] of an
+   array of 4: out of bounds -- while the real renumbering answers id 3 *)
+Lemma hash_delete_tail_walk_refuted :
+  let names := [[97; 48]; [97; 49]; [97; 50]; [97; 51]; [97; 52]] in
+  let names1 := set_nth 1 names [122; 49] in
+  let t := mkntab 1 (Some [[0; 1; 2; 3; 4]%nat]) in
+  exists t1,
+    hash_replace bernstein t 1 [97; 49] [122; 49] = Some t1 /\
+    (exists t2, hash_delete bernstein t1 [97; 51] 3 = Some (Some t2) /\
+                hfind bernstein (del_nth 3 names1) t2 [97; 52] = Some (Some 3%nat)) /\
+    (exists t2', hash_delete_tail_walk bernstein t1 [97; 51] 3 = Some (Some t2') /\
+                 hfind bernstein (del_nth 3 names1) t2' [97; 52] = None).
+Proof.
+  cbv zeta. eexists. split; [vm_compute; reflexivity|]. split.
+  - eexists. split; vm_compute; reflexivity.
+  - eexists. split; vm_compute; reflexivity.
+Qed.
